@@ -753,6 +753,9 @@ func partialModeOffForOperands(c *core.Ctx) {
 		return ok && fieldVar(fa) == flag
 	}
 	n := 0
+	readers := map[*ssa.Function]bool{}
+	// helperReaders: readers that are not reached from the dispatcher, only from other compile functions
+	helperReaders := map[*ssa.Function]bool{}
 	for _, fn := range repoFns(p, "compiler") {
 		if fn.Signature.Recv() == nil || core.NamedOf(fn.Signature.Recv().Type()) != ct {
 			continue
@@ -789,6 +792,16 @@ func partialModeOffForOperands(c *core.Ctx) {
 		if setsTrue {
 			continue
 		}
+		readers[fn] = true
+		calledByDispatcher := false
+		for _, b := range compile.Blocks {
+			for _, in := range b.Instrs {
+				if ci, ok := in.(ssa.CallInstruction); ok && ci.Common().StaticCallee() == fn {
+					calledByDispatcher = true
+				}
+			}
+		}
+		helperReaders[fn] = !calledByDispatcher
 		n++
 		bad := ""
 		for _, b := range fn.Blocks {
@@ -838,6 +851,73 @@ func partialModeOffForOperands(c *core.Ctx) {
 		}
 		c.Check(bad == "", core.SSAName(fn)+"|operands-compiled-with-"+flag.Name()+"-off", p.Pos(fn.Pos()),
 			fn.Name()+" decides by "+flag.Name()+" whether its own call becomes a partial and compiles its operands with the flag switched off"+ifs(bad != "", "; "+bad+" runs with the flag as it was: calls nested in the operands become partials too"))
+	}
+	// ... and a function that leaves the decision to a helper (it calls a
+	// reader, and reads the flag no longer itself) compiles what it compiles
+	// before the helper with the flag off as well: the callee of a call is an
+	// operand like the arguments are
+	for _, fn := range repoFns(p, "compiler") {
+		if fn.Signature.Recv() == nil || core.NamedOf(fn.Signature.Recv().Type()) != ct || readers[fn] || fn == compile {
+			continue
+		}
+		var stores []*ssa.Store
+		setsTrue := false
+		var readerCalls []ssa.Instruction
+		for _, b := range fn.Blocks {
+			for _, in := range b.Instrs {
+				if s, ok := in.(*ssa.Store); ok && isFlagAddr(s.Addr) {
+					stores = append(stores, s)
+					if k, isC := s.Val.(*ssa.Const); isC && k.Value != nil && k.Value.ExactString() == "true" {
+						setsTrue = true
+					}
+				}
+				if ci, ok := in.(ssa.CallInstruction); ok {
+					if cal := ci.Common().StaticCallee(); cal != nil && readers[cal] && helperReaders[cal] {
+						readerCalls = append(readerCalls, in)
+					}
+				}
+			}
+		}
+		if setsTrue || len(readerCalls) == 0 {
+			continue
+		}
+		n++
+		bad := ""
+		for _, b := range fn.Blocks {
+			for _, in := range b.Instrs {
+				ci, ok := in.(ssa.CallInstruction)
+				if !ok {
+					continue
+				}
+				cal := ci.Common().StaticCallee()
+				if cal == nil || cal.Signature.Recv() == nil || core.NamedOf(cal.Signature.Recv().Type()) != ct || readers[cal] {
+					continue
+				}
+				if cal != compile && !strings.HasPrefix(cal.Name(), "compile") {
+					continue
+				}
+				before := false
+				for _, rc := range readerCalls {
+					if instrReaches(in, rc) {
+						before = true
+					}
+				}
+				if !before {
+					continue
+				}
+				off := false
+				for _, s := range stores {
+					if k, isC := s.Val.(*ssa.Const); isC && k.Value != nil && k.Value.ExactString() == "false" && instrDominates(s, in) {
+						off = true
+					}
+				}
+				if !off {
+					bad = cal.Name() + " at " + p.Pos(in.Pos())
+				}
+			}
+		}
+		c.Check(bad == "", core.SSAName(fn)+"|operands-compiled-with-"+flag.Name()+"-off", p.Pos(fn.Pos()),
+			fn.Name()+" leaves it to a helper to decide by "+flag.Name()+" whether its call becomes a partial, and compiles what comes before the helper with the flag switched off"+ifs(bad != "", "; "+bad+" runs with the flag as it was: calls nested in the callee or the receiver become partials too"))
 	}
 	if n == 0 {
 		core.Undecidedf("no compile function reads %s", flag.Name())
